@@ -49,10 +49,43 @@ def product_cases(rng):
             q["controllers"][0]["methods"][1]["security"]]
     open_conflict = [q for q in must if not q["controllers"][0]["methods"][0]["security"]][:1]
     secured_conflict = [q for q in must if q["controllers"][0]["methods"][0]["security"]][:1]
-    return rng.sample(out, 24) + open_conflict + secured_conflict
+    # ... and enforcement with a secured visible route FOLLOWED by an unsecured hidden one (must be refused: a hidden route
+    # is still served), with and without the conflicting sibling
+    base_ = [q for q in out if q["config"]["enforce"] and not q["config"]["default_security"] and
+             not q["controllers"][0]["security"] and q["controllers"][0]["methods"][0]["security"] and
+             not q["controllers"][0]["methods"][1]["security"]]
+    hidden_open = [q for q in base_ if len(q["controllers"][0]["methods"]) == 2][:1] + \
+                  [q for q in base_ if len(q["controllers"][0]["methods"]) == 3][:1]
+    return rng.sample(out, 24) + open_conflict + secured_conflict + hidden_open
+
+
+def schemes_half(res, projects, obs):
+    """"every scheme it names is declared under components.securitySchemes as configured": for the OAuth2 scheme of the
+    generated configurations every flow documents exactly its own configured scopes, in both documents."""
+    import project as P
+    bad = 0
+    for k, p in enumerate(projects):
+        if "oauthy" not in p["config"]["schemes"]:
+            continue
+        for v in ("3.0.0", "3.1.0"):
+            spec = obs[k][v].get("spec")
+            if not spec:
+                continue
+            sc = ((spec.get("components") or {}).get("securitySchemes") or {}).get("oauthy") or {}
+            got = {f: sorted(((sc.get("flows") or {}).get(f) or {}).get("scopes") or {}) for f in P.OAUTHY_FLOWS}
+            want = {f: sorted(fl["scopes"]) for f, fl in P.OAUTHY_FLOWS.items()}
+            if sc.get("type") != "oauth2" or got != want:
+                bad += 1
+                if bad <= 2:
+                    res.violation({"kind": "property-fails-on-implementation", "openapi": v, "input": p,
+                                   "documented_scheme": sc, "configured_flows": P.OAUTHY_FLOWS,
+                                   "claim": "a scheme named by an operation is declared under components.securitySchemes as "
+                                            "configured: each OAuth2 flow lists exactly the scopes configured for that flow"})
+    res.coverage["oauth2_scheme_documents_checked"] = sum(1 for p in projects if "oauthy" in p["config"]["schemes"]) * 2
 
 
 def router_half(res, projects, obs):
+    schemes_half(res, projects, obs)
     """Documented = enforced needs the router side too: the routes files of accepted projects must pass the
     translation obligation router_ok (gate literal = effective alternatives), see C04_documented_equals_enforced."""
     import routercheck as R
